@@ -55,21 +55,21 @@ def fam_ss(rng, tier, protos=(9, 10), want=None):
 
 
 def fam_v9(rng, tier):
-    return fam_ss(rng, tier, (9,)) + gen.fam_sizes(rng, tier) + gen.fam_boundaries(rng) + gen.fam_stream(rng, n(tier, 200, 2000), versions=(9,), calls=(1, 5)) + gen.fam_redefine(rng, n(tier, 40, 300)) + \
+    return fam_ss(rng, tier, (9,)) + gen.fam_dup_in_set(rng, n(tier, 40, 300)) + gen.fam_sizes(rng, tier) + gen.fam_boundaries(rng) + gen.fam_stream(rng, n(tier, 200, 2000), versions=(9,), calls=(1, 5)) + gen.fam_redefine(rng, n(tier, 40, 300)) + \
         gen.fam_stream(rng, n(tier, 200, 2000), versions=(9,), calls=(1, 5), lossless=True) + \
         gen.fam_stream(rng, n(tier, 100, 800), versions=(9,), calls=(1, 4), lossless=True, wild=True) + \
         gen.fam_widths(rng, 9, sample=n(tier, 120, None)) + gen.fam_all_fields(rng, 9) + gen.fam_proto_values(rng, 9)
 
 
 def fam_ipfix(rng, tier):
-    return fam_ss(rng, tier, (10,)) + gen.fam_sizes(rng, tier) + gen.fam_boundaries(rng) + gen.fam_stream(rng, n(tier, 200, 2000), versions=(10,), calls=(1, 5)) + gen.fam_redefine(rng, n(tier, 40, 300)) + \
+    return fam_ss(rng, tier, (10,)) + gen.fam_dup_in_set(rng, n(tier, 40, 300)) + gen.fam_sizes(rng, tier) + gen.fam_boundaries(rng) + gen.fam_stream(rng, n(tier, 200, 2000), versions=(10,), calls=(1, 5)) + gen.fam_redefine(rng, n(tier, 40, 300)) + \
         gen.fam_stream(rng, n(tier, 300, 3000), versions=(10,), calls=(1, 5), lossless=True, simple_ipfix=True) + \
         gen.fam_stream(rng, n(tier, 100, 800), versions=(10,), calls=(1, 4), lossless=True, simple_ipfix=True, wild=True) + \
         gen.fam_widths(rng, 10, sample=n(tier, 150, None)) + gen.fam_all_fields(rng, 10) + gen.fam_proto_values(rng, 10) + gen.fam_rejected_template(rng, n(tier, 40, 300), want=["export"])
 
 
 def fam_cache(rng, tier):
-    return fam_ss(rng, tier) + gen.fam_chain_many_templates(rng, n(tier, (1100,), (1025, 1100, 4100))) + gen.fam_boundaries(rng) + gen.fam_isolation(rng, n(tier, 60, 500)) + gen.fam_rejected_template(rng, n(tier, 60, 400)) + gen.fam_template_noise(rng, n(tier, 60, 400)) + gen.fam_redefine(rng, n(tier, 80, 600), lossless=True) + \
+    return fam_ss(rng, tier) + gen.fam_dup_in_set(rng, n(tier, 80, 600)) + gen.fam_chain_many_templates(rng, n(tier, (1100,), (1025, 1100, 4100))) + gen.fam_boundaries(rng) + gen.fam_isolation(rng, n(tier, 60, 500)) + gen.fam_rejected_template(rng, n(tier, 60, 400)) + gen.fam_template_noise(rng, n(tier, 60, 400)) + gen.fam_redefine(rng, n(tier, 80, 600), lossless=True) + \
         gen.fam_stream(rng, n(tier, 100, 800), simple_ipfix=True, lossless=True)
 
 
@@ -78,7 +78,7 @@ def fam_c07(rng, tier):
 
 
 def fam_c11(rng, tier):
-    return gen.fam_chain_many_templates(rng, n(tier, (1100,), (1025, 1100, 4100))) + gen.fam_chain(rng, n(tier, 150, 600)) + gen.fam_chain_minimal(rng, n(tier, 60, 400)) + (gen.fam_chain(rng, 60, max_pkts=7, all_partitions=True) if tier == "thorough" else [])
+    return gen.fam_chain_many_templates(rng, n(tier, (1100,), (1025, 1100, 4100))) + gen.fam_chain_big_tail(rng, n(tier, (300_000,), (70_000, 300_000, 1_100_000))) + gen.fam_chain(rng, n(tier, 150, 600)) + gen.fam_chain_minimal(rng, n(tier, 60, 400)) + (gen.fam_chain(rng, 60, max_pkts=7, all_partitions=True) if tier == "thorough" else [])
 
 
 def fam_c12(rng, tier):
